@@ -92,6 +92,11 @@ def showDsd {ε : Type} : Except ε Unit → String
   | .ok _ => "ok"
   | .error _ => "dsd"
 
+/-- shared live dot between different keys of two entry tables (keys with their clocks) -/
+def sharedDotTables (ea eb : List (Nat × VClock Nat)) : Bool :=
+  ea.any (fun (m, ca) => eb.any (fun (m', cb) =>
+    m != m' && ca.dots.l.any (fun (a, n) => n != 0 && cb.dots.l.any (fun (a', n') => a' == a && n' == n))))
+
 def orswotOps : CrdtOps OS OOp where
   init := Orswot.init
   gen := genOrswot
@@ -107,6 +112,7 @@ def orswotOps : CrdtOps OS OOp where
   persist := some (persistWith (orswotCodec natS natS))
   persistOp := some (persistWith (orswotOpCodec natS natS))
   spec := specOrswot
+  sharedDot := some (fun a b => sharedDotTables a.entries.l b.entries.l)
   opDot := fun op => match op with
     | .add d _ => some (showDot d)
     | .rm _ _ => none
